@@ -89,8 +89,16 @@ class Run:
         detail: Any = None,
         path: Optional[List[str]] = None,
         rule: Optional[str] = None,
+        mismatch: bool = False,
     ) -> None:
+        """`mismatch`: the finding is the absence of an expected element, or a difference between the code and the form the rule
+        expects - on a function rewritten since the reference tree that means 'idiom not read' (see `check`)."""
         rule = rule or self.current_rule
+        if mismatch and not any(k['property'] == self.prop and k['rule'] == rule and k['construct'] == construct and k['key'] == key for k in self.known):
+            why = self._rewritten(construct)
+            if why is not None:
+                self.inconclusive(construct, f'{what} - but the code this rule reads has been rewritten ({why}): a mismatch with the expected form is not a finding there', rule=rule)
+                return
         rec = {
             'property': self.prop,
             'rule': rule,
